@@ -115,7 +115,9 @@ func named(t types.Type) string {
 	return ""
 }
 
-var coqKeywords = map[string]bool{"end": true, "in": true, "let": true, "match": true, "at": true, "as": true, "fun": true, "if": true, "then": true, "else": true, "return": true, "with": true, "mod": true, "using": true, "cap": false}
+var coqKeywords = map[string]bool{"end": true, "in": true, "let": true, "match": true, "at": true, "as": true, "fun": true, "if": true, "then": true, "else": true, "return": true, "with": true, "mod": true, "using": true, "cap": false,
+	// identifiers of the preludes and of the standard library that a Go local must not shadow
+	"res": true, "length": true, "fst": true, "snd": true, "nth": true, "map": true, "repeat": true, "firstn": true, "skipn": true, "wrap": true, "rbind": true, "seq": true, "fold_left": true}
 
 func mangle(s string) string {
 	if coqKeywords[s] {
